@@ -22,10 +22,10 @@ xv::Scenario make_scn(const drv::Program& p) {
   using SL = xenium::seqlock<T, xenium::policy::slots<S>>;
   auto s = std::make_shared<std::unique_ptr<SL>>();
   auto exec = [s](const drv::Op& o) {
-    if (o.name == "store") { xv::call("store", o.a); (*s)->store(mk<T>(o.a)); xv::ret(0, 0); }
-    else if (o.name == "update") { long old = -2; long a = o.a; xv::call("update", a);
+    if (o.name == "store") { xv::call_blocking("store", o.a); (*s)->store(mk<T>(o.a)); xv::ret(0, 0); }
+    else if (o.name == "update") { long old = -2; long a = o.a; xv::call_blocking("update", a);
       (*s)->update([&](T& d) { old = val_of(d); d = mk<T>(old < 0 ? 77777 : old + a); }); xv::ret(0, old); }
-    else if (o.name == "load") { xv::call("load"); T r = (*s)->load(); xv::ret(0, val_of(r)); }
+    else if (o.name == "load") { if (S == 1) xv::call_blocking("load"); else xv::call("load"); T r = (*s)->load(); xv::ret(0, val_of(r)); }
   };
   xv::Scenario sc; sc.nthreads = (int)p.threads.size();
   sc.setup = [=] { s->reset(new SL(mk<T>(1))); xv::ev("cfg", "init", 1); for (auto& o : p.setup) exec(o); };
